@@ -109,6 +109,17 @@ pub fn sequence(a: &Value) -> Value {
 
 /// whole-value parsing: parse::<Vec<Value>> / one::<Value> agree with a plain parse; absent params behave as null
 pub fn whole(a: &Value) -> Value {
+    if a["battery"].as_bool() == Some(true) {
+        let texts = [Some("[1]"), None, Some("{\"a\":1}"), Some("[ ]"), Some("[]"), Some("[1,2]"), Some("[\"x\"]"), Some("[null]"), Some("[[1,2],{\"k\":[3]}]"), Some("7"), Some("null")];
+        let mut why = vec![];
+        for t in texts {
+            let r = whole(&json!({"text": t}));
+            if r["violation"].as_bool() == Some(true) {
+                why.push(format!("{t:?}: {}", r["why"]));
+            }
+        }
+        return json!({"scenario":"c16_whole","observed":{"texts":texts.len()},"violation":!why.is_empty(),"why":why.join(" | ")});
+    }
     let text = a["text"].as_str().map(|s| s.to_string());
     let params = Params::new(text.as_deref());
     let plain: Result<Value, _> = serde_json::from_str::<Value>(text.as_deref().unwrap_or("null"));
